@@ -7,7 +7,7 @@ package eng
 // over net.Pipe; on its end of every session the harness serves a tiny echo gRPC service that
 // reports which session served the call.  Everything runs inside one testing/synctest bubble.
 //
-// Ops:  begin <N> [role] | add | remove <k> remote|local | rpc | inflight <k> | rapid | cancel
+// Ops:  begin <N> [role] | add | add hiccup | remove <k> remote|local | rpc | inflight <k> | rapid | cancel
 // State observation: keys=<GetMuxConnections()> conn=<keys of MultiClientConn.connMap, parsed from Describe()>
 // dialed=<sessions on which the client connection currently holds a transport (yamux stream)> can=<CanMakeCalls()>;
 // rpc: ok | unavailable | blocked (no resolver state yet: deadline) | closed.
@@ -165,6 +165,17 @@ func c11Run(t *testing.T, e *Env, body []string, next func(w *muxWorld, step int
 			if w.connecting() {
 				w.connOK(false)
 				w.peer("ping-ok")
+				applied = true
+				updates++
+			}
+			emit(op, c11Observe(w))
+			checkSync(op)
+		case op == "add hiccup":
+			// a new session whose link stalls for 11 s right after it was registered (its first health-check ping times out,
+			// the session itself survives and recovers): it is a registered, live session like any other
+			if w.connecting() {
+				w.connOK(false)
+				w.peer("ping-hiccup")
 				applied = true
 				updates++
 			}
@@ -340,6 +351,15 @@ func TestC11(t *testing.T) {
 		if onlyReplay {
 			return
 		}
+		// (0) sessions that suffer a latency spike right after registration, followed by other list changes
+		for _, h := range [][]string{
+			{"begin 2 establisher", "rpc", "add hiccup", "rpc", "add", "rpc", "rpc", "remove 1 remote", "rpc", "add", "rpc"},
+			{"begin 2 receiver", "add", "rpc", "add hiccup", "rpc", "rpc", "remove 0 local", "rpc", "rapid", "rpc"},
+			{"begin 3 establisher", "add hiccup", "add hiccup", "rpc", "add", "rpc", "rpc", "rpc", "remove 2 remote", "rpc", "remove 1 local", "rpc"},
+			{"begin 1 receiver", "add hiccup", "rpc", "remove 0 remote", "rpc", "add hiccup", "rpc"},
+		} {
+			c11Run(t, e, h, nil)
+		}
 		// (a) every add/remove history of up to `maxUpdates` effective updates, an rpc after every update
 		sizes := []int{1, 2, 3}
 		if e.Thorough() {
@@ -399,6 +419,8 @@ func TestC11(t *testing.T) {
 					return "inflight 0"
 				case x == 9:
 					return "rapid"
+				case x == 8 && r < n:
+					return "add hiccup"
 				case x < 7 && r == 0:
 					return "add"
 				default:
